@@ -83,7 +83,7 @@ def fsel_from(spec):
     raise ValueError(spec)
 
 
-ITER_WATCHDOG_S = 25
+ITER_WATCHDOG_S = 60
 
 
 def check_read(pck, pf, fsel, lv, bsel, fails, counter, via="getitem", stream=None):
